@@ -430,7 +430,13 @@ def main(argv):
     import fcntl
     lock = open(os.path.join(CACHE, "repo.lock"), "w")
     if os.environ.get("VERIF_HAVE_REPO_LOCK") != "1":
-        fcntl.flock(lock, fcntl.LOCK_SH)   # tools/with_patch takes it exclusively while /repo is patched
+        # writer-priority: pass through the gate first (a writer holding the gate blocks new readers
+        # while it waits for the current ones to finish), then hold the main lock shared for the run.
+        gate = open(os.path.join(CACHE, "repo.gate"), "w")
+        fcntl.flock(gate, fcntl.LOCK_EX)
+        fcntl.flock(lock, fcntl.LOCK_SH)
+        fcntl.flock(gate, fcntl.LOCK_UN)
+        gate.close()
     ctx = Ctx(a.prop, a.tier, seed, a.replay)
     try:
         return mod.run(ctx)
